@@ -261,7 +261,12 @@ func execConcRun(in runIn, ev func(k string, f any)) []core.Violation {
 			if skip {
 				privateNow.Store(gid(), fmt.Sprintf("Lookup(%s,%s) by goroutine %d", m.path, vers, g+1))
 			}
-			lines, err := clients[j.c].Lookup(m.path, vers)
+			lines, err, pan := safeLookup(clients[j.c], m.path, vers)
+			if pan != nil {
+				vmu.Lock()
+				vs = append(vs, core.Violation{Sig: "c14:panic", What: fmt.Sprintf("Lookup(%s,%s) panics: %v", m.path, vers, pan)})
+				vmu.Unlock()
+			}
 			privateNow.Delete(gid())
 			want := sumworld.Lines(gosumLines(m.path, m.vers), m.path, vers)
 			cls := "other"
